@@ -6,7 +6,7 @@ CONSTANTS
   CF = 1
   NoRepublish = FALSE
   ExitRemoves = FALSE
-  FreeOnlyUnlinked = FALSE
+  FreeLinkedToo = FALSE
   defaultInitValue = 0
 INVARIANTS NoUseAfterFree NoFreedLinked AtMostOnce MutexOK
 CHECK_DEADLOCK FALSE
